@@ -144,6 +144,12 @@ def _build(d):
                             d.choice([0, 1, -3, 2.5, 10, 100, 7])])
         elif model['order']:
             prehist.append(['eval', d.choice(model['order'])])
+    raw = {}
+    if names and d.pick(2):
+        n0 = names[0]['name']
+        raw['Sheet1!G1'] = '=%s+1' % d.choice([n0.lower(), n0.upper()])
+        if any('range' in n for n in names):
+            raw['Sheet1!G2'] = '=SUM(%s)*2' % d.choice(['nmrange', 'NMRANGE'])
     nsets = sum(1 for op in prehist if op[0] == 'set')
     if nsets and d.pick(2):
         # mirrored history: evaluate after the sets, and afterwards as many
@@ -156,7 +162,7 @@ def _build(d):
         changes = changes[:nsets]
     return {'model': model, 'focus': sorted(set(focus)), 'pre': bool(
         d.pick(2)), 'changes': changes, 'names': names, 'prehist': prehist,
-        'skipfirst': d.pick(3) == 0, 'again': d.pick(2) == 0}
+        'skipfirst': d.pick(3) == 0, 'again': d.pick(2) == 0, 'raw': raw}
 
 
 def strategy(tier):
@@ -207,6 +213,12 @@ def _compile(case, model):
             cb, rb = R.split_a1(b)
             wbn.append({'name': n['name'],
                         'ref': '%s!$%s$%d:$%s$%d' % (s, ca, ra, cb, rb)})
+    # formulas that spell the names in ANOTHER letter case (whatever they
+    # mean - in this library an unknown name reads as blank - they must mean
+    # the same in the extract): compared full against extract only
+    for a, f in (case.get('raw') or {}).items():
+        s, a1 = a.split('!')
+        per[s][a1] = {'kind': 'f', 'f': f[1:]}
     wb = {'sheets': [{'name': s, 'cells': per[s]} for s in model['sheets']],
           'names': wbn}
     import tempfile
@@ -275,7 +287,8 @@ def judge(case):
     before = snapshot(m)
     consts_before = const_values(m)
     try:
-        ex = xl.ModelCompiler.extract(m, focus=list(focus))
+        rawf = sorted(case.get('raw') or {})
+        ex = xl.ModelCompiler.extract(m, focus=list(focus) + rawf)
     except Exception as err:  # noqa: BLE001
         t = exc_tag(err)
         res.fail('extract-exception:%s:%s:%s' % (
@@ -367,6 +380,19 @@ def judge(case):
             return res
     if not compare('after-changes'):
         return res
+    for a in rawf:
+        try:
+            o1 = norm(ev.evaluate(a))
+        except Exception as err:  # noqa: BLE001
+            o1 = root_exc(err)
+        try:
+            o2 = norm(evs['ex'].evaluate(a))
+        except Exception as err:  # noqa: BLE001
+            o2 = root_exc(err)
+        if not close(o2, o1, rel=1e-12):
+            res.fail('extract-differs:name-in-other-case', o1, o2,
+                     [a, case['raw'][a]])
+            return res
     if case.get('again'):
         # a SECOND extraction from the same original, which has moved on
         # since the first: it must show the current state and be a model of
